@@ -1,6 +1,7 @@
 import IpaVerif.Model.Util
 import IpaVerif.Model.ReportWire
 import IpaVerif.Model.ReportWireQuery
+import IpaVerif.Model.Hybrid
 /-! Line-protocol handlers for property C10 (model side). Import-free.
 
 Request grammar: see `harness/c10.rs`. The HPKE layer is replaced by the *ideal AEAD given by the log*
@@ -151,15 +152,37 @@ def errTag (e : Err) : String := (((showErr e).drop 4).toString).replace " " "_"
 
 /-- the harness's `query_err_class` -/
 def showInput : InputOutcome → String
-  | .accepted n => s!"accepted:{n}"
+  | .accepted rs => s!"accepted:{rs.length}"
   | .ioErr (.invalidData e) => "err:Io:InvalidData:" ++ errTag e
   | .ioErr .writeZero => "err:Io:WriteZero"
   | .reportErr e => "err:InvalidHybridReport:" ++ errTag e
   | .panic t => "panic:" ++ t
 
-def isAccepted : InputOutcome → Option Nat
-  | .accepted n => some n
+def isAccepted : InputOutcome → Option (List PlainReport)
+  | .accepted rs => some rs
   | _ => none
+
+/-- the report the three helpers hold replicated shares of (`x = x₁ ⊕ x₂ ⊕ x₃`, helper h holds `(x_h, x_{h+1})`,
+serialized left half first), as a record of the C01 specification -/
+def reconstruct (a b c : PlainReport) : Hybrid.Rec :=
+  let left (p : Bytes) : Nat := ofLe (p.take (p.length / 2))
+  let x (f : PlainReport → Bytes) : Nat := left (f a) ^^^ left (f b) ^^^ left (f c)
+  match a.info with
+  | .imp _ => { key := x (·.matchKey), bk := x (·.btt), v := 0 }
+  | .conv _ => { key := x (·.matchKey), bk := 0, v := x (·.btt) }
+
+def showHist (h : List Nat) : String :=
+  let nz := (List.range h.length).zip h |>.filter (·.2 != 0)
+  if nz.isEmpty then "-" else String.intercalate "," (nz.map (fun (i, v) => s!"{i}:{v}"))
+
+/-- what the protocol computes from the accepted reports: the C01 specification (`Hybrid.spec`) with the widths of
+`Query::execute` (BA8 breakdown keys, BA3 values, BA32 histogram values, 256 buckets) -/
+def histOf (rs : List (List PlainReport)) : String :=
+  match rs with
+  | [a, b, c] =>
+    let recs := (a.zip (b.zip c)).map (fun (x, y, z) => reconstruct x y z)
+    showHist (Hybrid.spec { bkW := Report.prodBkBits, vW := Report.prodVBits, hvW := 32, buckets := 2 ^ Report.prodBkBits } recs)
+  | _ => "?"
 
 def queryResp (labels : List Char) (outs : List InputOutcome) : String :=
   let fmt (l : List String) : String :=
@@ -170,9 +193,9 @@ def queryResp (labels : List Char) (outs : List InputOutcome) : String :=
     fmt (labels.zipWith (fun l o => if l == 'm' then showInput o else "peer") outs)
   else
     match outs.mapM isAccepted with
-    | some (n :: ns) =>
+    | some (rs :: rss) =>
       -- all three helpers enter the protocol; with equally many reports it completes (C01's subject)
-      if ns.all (· == n) then fmt (outs.map (fun _ => "ok")) else "judge"
+      if rss.all (·.length == rs.length) then fmt (outs.map (fun _ => "ok")) ++ " hist=" ++ histOf (rs :: rss) else "judge"
     | some [] => "bad-request"
     | none =>
       -- every helper fails on its own input: all report; a mix of failing and accepting helpers leaves the
@@ -200,7 +223,7 @@ def handle (toks : List String) : Option String :=
       let L ← parseTy ty
       let A := tableAEAD (← parseLog log)
       pure (streamResp A (← parseReg reg) L (← parseChunks chunks))).getD "bad-request"
-  | ["c10.query", sz, reg, log, labels, c1, c2, c3] => some <| (do
+  | ["c10.query", sz, reg, log, labels, _, c1, c2, c3] => some <| (do
       let A := tableAEAD (← parseLog log)
       let r ← parseReg reg
       let n ← sz.toNat?
@@ -286,10 +309,14 @@ def infoNewOracle (site : String) (impl : String) : Option Bool := do
 * nobody panics or hangs (`timeout`), whatever the body;
 * a helper that was handed a malformed body (label `m`) returns an error value;
 * when all three bodies are exactly `query_size` honest records (`vvv`) every helper completes;
-* bodies with honest records but too few / something behind them (`s`, `l`): error or completion, both clean. -/
-def queryOracle (labels : String) (impl : String) : Option Bool := do
+* bodies with honest records but too few / something behind them (`s`, `l`): error or completion, both clean;
+* a query that completes returns the histogram `EXP` of the request: the attribution (computed by the generator from
+  the plaintext reports it encrypted) of the first `query_size` reports present. -/
+def queryOracle (labels exp : String) (impl : String) : Option Bool := do
   if crashed impl then return false
   let fields := impl.splitOn " "
+  let hist := kv fields "hist"
+  let fields := fields.filter (fun f => !f.startsWith "hist=")
   let vals ← fields.mapM (fun f => match f.splitOn "=" with
     | [_, v] => some v
     | _ => none)
@@ -297,6 +324,8 @@ def queryOracle (labels : String) (impl : String) : Option Bool := do
   if vals.length != 3 || ls.length != 3 then none
   if vals.any crashed then return false
   let someM := ls.contains 'm'
+  -- a completed query returns the histogram the generator expects from the reports it put into the bodies
+  if vals.all (· == "ok") && hist != some exp then return false
   pure ((ls.zip vals).all (fun (l, v) =>
     if l == 'm' then v.startsWith "err:"
     else if someM then true
@@ -324,9 +353,9 @@ def oracle (toks : List String) (impl : String) : Option String :=
       match infoNewOracle site impl with
       | some b => some (verdict b "accepted metadata does not survive to_bytes→from_bytes (or a clean site was refused)")
       | none => some "unknown"
-  | ["c10.query", _, _, _, labels, _, _, _] =>
-      match queryOracle labels impl with
-      | some b => some (verdict b "Query::execute panicked or hung on an input body, accepted a malformed body, or failed on a valid one")
+  | ["c10.query", _, _, _, labels, exp, _, _, _] =>
+      match queryOracle labels exp impl with
+      | some b => some (verdict b "Query::execute panicked or hung on an input body, accepted a malformed body, failed on a valid one, or returned another histogram than that of the first query_size reports")
       | none => some "unknown"
   | ["c10.stream", _, _, _, _] =>
       some (verdict (!crashed impl) "the input path crashed or hung on a malformed length-delimited body")
